@@ -3,8 +3,11 @@ package checks
 import (
 	"encoding/json"
 	"fmt"
+	"net"
+	"reflect"
 	"sort"
 	"strings"
+	"sync"
 	"time"
 
 	"github.com/brutella/hc/characteristic"
@@ -78,6 +81,38 @@ type c10Run struct {
 	seq   int
 	gate  chan bool // closed at the end: releases a handler blocked by hang-and-reset
 	fail  func(sig, desc string)
+	// application-owned state (prefix "app-state"): the application keeps the values itself, answers reads from its
+	// state through a read callback and follows remote writes in its remote-update callback
+	appMu    sync.Mutex
+	appState map[string]interface{}
+}
+
+func (r *c10Run) appSet(name string, ch *characteristic.Characteristic, v interface{}) {
+	if r.appState != nil {
+		r.appMu.Lock()
+		r.appState[name] = v
+		r.appMu.Unlock()
+	}
+	ch.UpdateValue(v)
+}
+
+func (r *c10Run) installAppState() {
+	r.appState = map[string]interface{}{}
+	for _, name := range []string{"A", "B"} {
+		name := name
+		ch, _ := r.ch(name)
+		r.appState[name] = ch.Value
+		ch.OnValueGet(func() interface{} {
+			r.appMu.Lock()
+			defer r.appMu.Unlock()
+			return r.appState[name]
+		})
+		ch.OnValueUpdateFromConn(func(_ net.Conn, _ *characteristic.Characteristic, nv, _ interface{}) {
+			r.appMu.Lock()
+			r.appState[name] = nv
+			r.appMu.Unlock()
+		})
+	}
 }
 
 func (r *c10Run) ch(name string) (*characteristic.Characteristic, uint64) {
@@ -213,7 +248,7 @@ func (r *c10Run) step(sym c10Sym) bool {
 				return false
 			}
 		} else {
-			ch.UpdateValue(250)
+			r.appSet(sym.Ch, ch, 250)
 		}
 		if r.val[sym.Ch] != 100 { // clamped to the declared maximum 100
 			r.val[sym.Ch] = 100
@@ -235,7 +270,7 @@ func (r *c10Run) step(sym c10Sym) bool {
 			v := r.other(sym.Ch)
 			r.val[sym.Ch] = v
 			notify(sym.Ch, v, -1)
-			ch.UpdateValue(v)
+			r.appSet(sym.Ch, ch, v)
 		}
 	case "app", "app-same":
 		ch, _ := r.ch(sym.Ch)
@@ -245,7 +280,7 @@ func (r *c10Run) step(sym c10Sym) bool {
 			r.val[sym.Ch] = v
 			notify(sym.Ch, v, -1)
 		}
-		ch.UpdateValue(v)
+		r.appSet(sym.Ch, ch, v)
 	case "hang-and-reset":
 		if r.gate != nil {
 			return true // once per history
@@ -394,6 +429,9 @@ func c10ExecFrom(c *fw.Ctx, k int, prefix string, hist []c10Sym) bool {
 			return false
 		}
 	}
+	if prefix == "app-state" {
+		r.installAppState()
+	}
 	if prefix == "subscribed" {
 		for i := 0; i < k; i++ {
 			for _, ch := range []string{"A", "B"} {
@@ -418,6 +456,7 @@ func c10ExecFrom(c *fw.Ctx, k int, prefix string, hist []c10Sym) bool {
 }
 
 func c10Run1(c *fw.Ctx) {
+	c10Payloads(c, c.Shard, c.NShards)
 	type cfg struct{ k, depth, nsym int }
 	cfgs := []cfg{{2, 3, 0}}
 	if c.Thorough() {
@@ -473,6 +512,18 @@ func c10Run1(c *fw.Ctx) {
 			c10ExecFrom(c, cf.k, "subscribed", hist)
 			return false
 		})
+		// … and with an application that owns the state (read callback + remote-update callback), two levels less deep
+		exploreTree(c, len(alpha), cf.depth-1, func(h []int) bool {
+			if len(h) < cf.depth-1 {
+				return false
+			}
+			var hist []c10Sym
+			for _, s := range h {
+				hist = append(hist, alpha[s])
+			}
+			c10ExecFrom(c, cf.k, "app-state", hist)
+			return false
+		})
 	}
 }
 
@@ -485,6 +536,10 @@ func init() {
 		Replay: func(c *fw.Ctx, raw json.RawMessage) {
 			var cas c10Case
 			json.Unmarshal(raw, &cas)
+			if strings.HasPrefix(cas.Prefix, "payload:") {
+				c10Payloads(c, 0, 1)
+				return
+			}
 			c10ExecFrom(c, cas.K, cas.Prefix, cas.Hist)
 		},
 		Budget: func(t string) time.Duration {
@@ -495,4 +550,58 @@ func init() {
 		},
 		Assumptions: []string{"order of EVENTs for different characteristics on one connection is not judged; duplicates are", "ProgrammableSwitchEvent-style notify-on-every-write characteristics are outside the alphabet"},
 	})
+}
+
+// c10Payloads: depth-1 sweep over every observable, readable characteristic constructor × its value alphabet: a
+// subscribed controller receives exactly one EVENT carrying exactly the new value (after JSON, HTTP framing and
+// encryption), and its connection stays in frame (the next request is answered).
+func c10Payloads(c *fw.Ctx, part, parts int) {
+	s, err := c09Build(c, 0)
+	if err != nil {
+		c.Infra("build: " + err.Error())
+		return
+	}
+	defer s.Close()
+	for ci, cc := range s.chars {
+		if ci%parts != part {
+			continue
+		}
+		ch := cc.Ch
+		if !ch.IsObservable() || !ch.IsReadable() {
+			continue
+		}
+		cas := c10Case{Prefix: "payload:" + cc.Name}
+		m, _, err := s.k.Do("PUT", "/characteristics", refctl.CTJSON, []byte(fmt.Sprintf(`{"characteristics":[{"aid":%d,"iid":%d,"ev":true}]}`, cc.Acc.ID, ch.ID)))
+		if err != nil || m.Status/100 != 2 {
+			c.Report("payload/subscribe-failed/"+ch.Format, fmt.Sprintf("%s: subscription fails: %v %v", cc.Name, m, err), cas)
+			continue
+		}
+		for _, v := range c09Values(ch) {
+			if reflect.DeepEqual(ch.Value, v.V) {
+				continue // no change, no event (the histories judge that)
+			}
+			c.Eval(1)
+			ch.UpdateValue(v.V)
+			r, evs, err := s.k.Do("GET", fmt.Sprintf("/characteristics?id=%d.%d", s.chars[0].Acc.ID, s.chars[0].Ch.ID), "", nil)
+			sig := ch.Format + "/" + v.Label
+			if ch.Format != characteristic.FormatString {
+				sig = ch.Format
+			}
+			if err != nil || r.Status/100 != 2 {
+				c.Report("payload/out-of-frame/"+sig, fmt.Sprintf("%s := %s: after the EVENT the connection no longer yields a well-formed response: %v", cc.Name, v.Label, err), cas)
+				return
+			}
+			if len(evs) != 1 {
+				c.Report("payload/event-count/"+sig, fmt.Sprintf("%s := %s: the subscribed controller received %d EVENT messages", cc.Name, v.Label, len(evs)), cas)
+				continue
+			}
+			es, perr := c09ParseEntries(evs[0].Body)
+			if perr != nil || len(es) != 1 || es[0].Aid != cc.Acc.ID || es[0].Iid != ch.ID || !c09Same(es[0].Value, v.V) {
+				c.Report("payload/event-value/"+sig, fmt.Sprintf("%s := %s: the EVENT carries %q", cc.Name, v.Label, trunc(evs[0].Body, 100)), cas)
+				continue
+			}
+			c.Class("payload:" + ch.Format)
+		}
+		s.k.Do("PUT", "/characteristics", refctl.CTJSON, []byte(fmt.Sprintf(`{"characteristics":[{"aid":%d,"iid":%d,"ev":false}]}`, cc.Acc.ID, ch.ID)))
+	}
 }
